@@ -2,34 +2,24 @@ package main
 
 import (
 	"fmt"
-	"os"
-	"runtime/pprof"
-	"time"
 
 	"github.com/bufbuild/bufverif/checks/c03"
 )
 
 func main() {
 	eng := c03.NewEngine()
-	b := c03.Bases()[1]
-	r := b.Schema.Render(c03.Style{})
-	img, err := eng.Image(r)
-	if err != nil {
-		panic(err)
+	for _, in := range c03.Instances(c03.Bases()[0], false) {
+		if in.Op != "enum-alias-delete-one-name" || in.Pos != "top" {
+			continue
+		}
+		p, err := eng.Prepare(&in, 0)
+		if err != nil {
+			panic(err)
+		}
+		fmt.Println(in.ID(), p.ChangedFiles() != nil, len(p.ChangedFiles()))
+		for _, c := range c03.CategoryConfigs()[8:] {
+			anns, err := eng.Breaking(c, p.NewImg, p.OldImg)
+			fmt.Println(c, anns, err)
+		}
 	}
-	c := c03.Config{Version: "v2", Use: "ALL", Union: true}
-	eng.Breaking(c, img, img)
-	f, _ := os.Create("/tmp/c03.prof")
-	pprof.StartCPUProfile(f)
-	t0 := time.Now()
-	for i := 0; i < 200; i++ {
-		eng.Breaking(c, img, img)
-	}
-	fmt.Println("breaking", time.Since(t0)/200)
-	t0 = time.Now()
-	for i := 0; i < 50; i++ {
-		eng.Image(r)
-	}
-	fmt.Println("build", time.Since(t0)/50)
-	pprof.StopCPUProfile()
 }
